@@ -110,9 +110,24 @@ func checkC13(c *Ctx) {
 			names[1], names[2] = "__k", "k"
 		}
 		pool := [][]string{{"1"}, {"5"}, {"0x10"}, {"VAR_TEMP_1"}, {"FLAG_X"}, {"ITEM_POTION"}, {"ITEM_NONE"}, {"1", "+", "2"}, {"(", "VAR_A", "+", "1", ")", "*", "2"}, {"TRAINER_ROXANNE"}}
+		switch i % 10 {
+		case 7:
+			// long names (64 characters and more)
+			names[0] = "K_" + strings.Repeat("LONG_", 13)
+			names[1] = "K_" + strings.Repeat("x", 62)
+		}
 		redefine := i%25 == 24
 		// a use before any definition is not a use
 		same("script Early {\n    early(K_ONE, K_TWO)\n}\n")
+		if i%10 == 3 || i%10 == 8 {
+			// many constants defined first (the ones used below come 17th, 33rd, 65th or later)
+			for k := 0; k < []int{16, 17, 32, 40, 64, 70}[(i/10)%6]; k++ {
+				name := fmt.Sprintf("FILL_%d", k)
+				toks := []string{fmt.Sprint(1000 + k)}
+				P.WriteString("const " + name + " = " + toks[0] + "\n")
+				b.define(name, toks)
+			}
+		}
 		ndefs := 1 + r.Intn(3)
 		defineOne := func(k int) {
 			name := names[k]
